@@ -48,6 +48,16 @@ fn parse<'a>(tok: &mut std::slice::Iter<'a, &'a str>, w: &mut Walk) -> Option<No
             w.nodes[idx] = format!("H:{};B:{}", hex(p.headers().to_string().as_bytes()), hex(p.raw_body()));
             Some(Node::Single(p))
         }
+        // `Attachment::new(file name)` / `Attachment::new_inline(content id)`
+        k @ ("A" | "I") => {
+            let name = unhex_str(tok.next()?)?;
+            let ctype = unhex_str(tok.next()?)?;
+            let content = unhex(tok.next()?)?;
+            let a = if k == "A" { lettre::message::Attachment::new(name) } else { lettre::message::Attachment::new_inline(name) };
+            let p = a.body(content, ContentType::parse(&ctype).ok()?);
+            w.nodes.push(format!("H:{};B:{}", hex(p.headers().to_string().as_bytes()), hex(p.raw_body())));
+            Some(Node::Single(p))
+        }
         // `MultiPart::alternative_plain_html`
         "H" => {
             let plain = unhex_str(tok.next()?)?;
